@@ -628,10 +628,12 @@ theorem resolveRest_succ {n : Nat} (ih : AllSat T cfg g L n) (ps : List Part) (v
           · exact sat_pure (vok_mkV ValOK.nil)
           · rename_i nv
             obtain ⟨hnv, hstep⟩ := hnext nv rfl
-            refine sat_bind (ih.afterPart _ _ _ _ hnv hstep (partOK_call hpart)) fun r hr => ?_
             split
-            · exact sat_pure (vok_mkV ValOK.nil)
-            · exact ih.resolveRest _ _ _ hrest (hr _ _ rfl)
+            · exact sat_xerr _ _
+            · refine sat_bind (ih.afterPart _ _ _ _ hnv hstep (partOK_call hpart)) fun r hr => ?_
+              split
+              · exact sat_pure (vok_mkV ValOK.nil)
+              · exact ih.resolveRest _ _ _ hrest (hr _ _ rfl)
 
 theorem frameOK_depth {f : Frame} (h : FrameOK L f) (d : Nat) : FrameOK L { f with macroDepth := d } := h
 
